@@ -40,6 +40,16 @@ type c13Case struct {
 var c13Mu = seqioMu // the device is process-global: one case at a time
 
 func c13Body(id int) []byte {
+	if id >= 100 {
+		// incompressible body of id-100 bytes (used to hit exact compressed sizes)
+		b := make([]byte, id-100)
+		x := uint32(2024)
+		for i := range b {
+			x = x*1664525 + 1013904223
+			b[i] = byte(x >> 24)
+		}
+		return b
+	}
 	switch id {
 	case 0:
 		return []byte{}
@@ -505,7 +515,7 @@ func opName(fs *faultos.FS, k int) string {
 func init() {
 	register(&Check{ID: "C13", Level: "fault_enumeration", Quick: 150 * time.Second, Thor: 30 * time.Minute,
 		Run: func(r *engine.Run) bool {
-			r.Rule = "real cmd/cache on an in-memory device: for bodies {empty, 1 byte, 100 bytes, 3000 bytes, 6000 and 40000 bytes incompressible, 120000 bytes compressible (+70 KB and 300 KB incompressible in thorough)}, each read back with 10 buffer sizes (1 byte .. 1 MiB, io.Copy): every byte offset x every non-zero xor mask (small bodies; single-bit masks for large), every truncation length, appended tails of 1..64 bytes, entries stored under a foreign key and with foreign header digests; every crash image of the write log: every subset of writes kept (nothing is synced) x the last kept write torn at every length; every single fault (error, short write/read) at every I/O operation of the write protocol and every pair; distinct key = (kind, body, parameters); non-trivial = image differs from the finished file"
+			r.Rule = "real cmd/cache on an in-memory device: for bodies {empty, 1 byte, 100 bytes, 3000 bytes, 6000 and 40000 bytes incompressible, 120000 bytes compressible, bodies whose stored length is exactly 4096 / 8192 / 32768 bytes, 1.3 MB incompressible (sparse offsets) (+70 KB, 300 KB and stored length 65536 in thorough)}, each read back with 10 buffer sizes (1 byte .. 1 MiB, io.Copy): every byte offset x every non-zero xor mask (small bodies; single-bit masks for large), every truncation length, appended tails of 1..64 bytes, entries stored under a foreign key and with foreign header digests; every crash image of the write log: every subset of writes kept (nothing is synced) x the last kept write torn at every length; every single fault (error, short write/read) at every I/O operation of the write protocol and every pair; distinct key = (kind, body, parameters); non-trivial = image differs from the finished file"
 			complete := true
 			eval := func(c c13Case, size int) {
 				r.Evals.Add(1)
@@ -521,6 +531,24 @@ func init() {
 			if r.Tier == "thorough" {
 				bodies = append(bodies, 3, 8)
 			}
+			// bodies whose stored (compressed) length is an exact multiple of a block size: 4096, 8192, 32768, 65536
+			for _, target := range []int{4096, 8192, 32768, 65536} {
+				if target > 32768 && r.Tier != "thorough" {
+					continue
+				}
+				c13Mu.Lock()
+				for n := target; n > target-200; n-- {
+					f, _, problem := c13FinishedUncached(100 + n)
+					if problem == "" && len(f)-60 == target {
+						bodies = append(bodies, 100+n)
+						break
+					}
+				}
+				c13Mu.Unlock()
+			}
+			// a body whose stored length exceeds 1 MiB (corruption, truncation and extension at a sparse set of offsets only)
+			bodies = append(bodies, 100+1300000)
+			r.Extra["bodies"] = fmt.Sprint(bodies)
 			c13Mu.Lock()
 			sizes := map[int]int{}
 			logs := map[int]int{}
@@ -541,7 +569,7 @@ func init() {
 					eval(c13Case{Kind: "pattern", Body: b, Pat: pat}, 1)
 				}
 				for _, bufsz := range []int{0, 1, 7, 512, 4096, 32767, 32768, 32769, 65536, 1 << 20} {
-					if bufsz == 1 && len(c13Body(b)) > 50000 {
+					if (bufsz == 1 || bufsz == 7) && len(c13Body(b)) > 50000 {
 						continue
 					}
 					eval(c13Case{Kind: "readpat", Body: b, Pat: bufsz}, 2)
@@ -564,7 +592,18 @@ func init() {
 				if n > 20000 && r.Tier != "thorough" {
 					step = 7
 				}
+				heavy := n > 500000
+				heavyOff := map[int]bool{}
+				if heavy {
+					for _, o := range engine.Ladder(70, n-1, 4096, 32768) {
+						heavyOff[o] = true
+					}
+					masks = []int{1, 128}
+				}
 				for off := 0; off < n && complete; off++ {
+					if heavy && !heavyOff[off] && off < n-120 {
+						continue
+					}
 					if off%step != 0 && off >= 200 && off < n-400 {
 						continue
 					}
@@ -576,6 +615,9 @@ func init() {
 					}
 				}
 				for l := 0; l < n; l++ {
+					if heavy && !heavyOff[l] && l < n-120 {
+						continue
+					}
 					if n > 20000 && l%17 != 0 && l > 200 && l < n-200 {
 						continue
 					}
@@ -594,6 +636,9 @@ func init() {
 							eval(c13Case{Kind: "wrongsum", Body: b, Off: o, Mask: m}, 400)
 						}
 					}
+				}
+				if heavy {
+					continue // no crash images / fault pairs for the 1.3 MB body: its write log has hundreds of entries
 				}
 				// crash images
 				L := logs[b]
